@@ -165,7 +165,9 @@ def decDUID (data : Bytes) : Res DUID :=
   if !l.has 2 then .err
   else
     let (typ, l) := l.read16
-    if typ = 1 then
+    -- RFC 8415 §11.1: 1..128 octets after the type code
+    if l.len < 1 || l.len > 128 then .err
+    else if typ = 1 then
       let (ht, l) := l.read16
       let (t, l) := l.read32
       let (a, l) := l.readAll
@@ -224,7 +226,7 @@ def parseNTPSub (code : Nat) (data : Bytes) : Res NTPSub :=
     fin l (.mcAddr v)
   else if code = 3 then
     match Label.fromBytes data with
-    | .ok lb => .ok (.srvFQDN lb)
+    | .ok lb => if lb.labels.length ≠ 1 then .err else .ok (.srvFQDN lb)  -- RFC 5908 §4.3: one FQDN
     | .err => .err
     | .panic => .panic
   else .ok (.generic code data)
